@@ -16,6 +16,7 @@ import (
 	"fmt"
 	"go/ast"
 	"go/constant"
+	"go/token"
 	"go/types"
 	"os"
 	"strings"
@@ -221,6 +222,56 @@ func (l *loader) preload(rels ...string) {
 	}
 }
 
+// offsetConsts lists the package-level constants whose initialiser is a call
+// unsafe.Offsetof(X.Field): name, record type of X, field, evaluated value.
+func offsetConsts(p *packages.Package) (out [][4]string) {
+	for _, f := range p.Syntax {
+		for _, d := range f.Decls {
+			gd, ok := d.(*ast.GenDecl)
+			if !ok || gd.Tok != token.CONST {
+				continue
+			}
+			for _, sp := range gd.Specs {
+				vs := sp.(*ast.ValueSpec)
+				for i, n := range vs.Names {
+					if i >= len(vs.Values) {
+						continue
+					}
+					call, ok := ast.Unparen(vs.Values[i]).(*ast.CallExpr)
+					if !ok || len(call.Args) != 1 {
+						continue
+					}
+					sel, ok := call.Fun.(*ast.SelectorExpr)
+					if !ok || sel.Sel.Name != "Offsetof" {
+						continue
+					}
+					id, ok := sel.X.(*ast.Ident)
+					if !ok {
+						continue
+					}
+					if pn, ok := p.TypesInfo.Uses[id].(*types.PkgName); !ok || pn.Imported().Path() != "unsafe" {
+						continue
+					}
+					arg, ok := ast.Unparen(call.Args[0]).(*ast.SelectorExpr)
+					if !ok {
+						continue
+					}
+					tn := "?"
+					if nt, ok := p.TypesInfo.TypeOf(arg.X).(*types.Named); ok {
+						tn = nt.Obj().Name()
+					}
+					c, ok := p.TypesInfo.Defs[n].(*types.Const)
+					if !ok {
+						continue
+					}
+					out = append(out, [4]string{n.Name, tn, arg.Sel.Name, constant.ToInt(c.Val()).ExactString()})
+				}
+			}
+		}
+	}
+	return
+}
+
 func genLayout(l *loader, name, out string) {
 	l.preload("ptttype", "ptt", "ptt/fav", "cache", "cmbbs", "types")
 	pt := l.load("ptttype")
@@ -315,6 +366,20 @@ func genLayout(l *loader, name, out string) {
 		lf.raw(fmt.Sprintf("def k_%s : Nat := %s\n", n, v))
 	}
 	lf.raw("\n")
+
+	lf.raw("/-! package-level constants defined as unsafe.Offsetof(<var>.<Field>): (constant, record type, field, value) -/\n\n")
+	lf.raw("def offsetConsts : List (String × String × String × Nat) := [")
+	firstOC := true
+	for _, p := range []*packages.Package{pt, pc} {
+		for _, oc := range offsetConsts(p) {
+			if !firstOC {
+				lf.raw(",")
+			}
+			firstOC = false
+			lf.raw(fmt.Sprintf("\n  (%q, %q, %q, %s)", oc[0], oc[1], oc[2], oc[3]))
+		}
+	}
+	lf.raw("]\n\n")
 
 	lf.raw("/-! partial updates: (function, *_SZ constants referred to, unsafe.Offsetof arguments (type, field, value)) -/\n\n")
 	lf.raw("def updates : List (String × List String × List (String × String × Nat)) := [")
